@@ -243,9 +243,22 @@ def body(pid, tier, seed, rep, only_prop=False, scale=1):
     lines, metas = [], []
     ndy = common.count(tier, 150, 2500) * scale if "pipe" in want else 0
     prev_spec = None
-    for k in range(n + ndy):
+    nbig = 1 if pid in ("C07", "C08") else 0
+    for k in range(n + ndy + nbig):
         spec = TG.gen_spec(rng, tier) if k < n else TG.gen_dyadic_spec(rng)
-        if k >= n:
+        if k >= n + ndy:
+            # one long single-layer timeline (more than 200 labels in one layer, an upper bound, a burst of labels crowding against it at the far end;
+            # no conflict cluster anywhere near the 249 of known finding F3): whatever is done to large layers must keep the boxes apart
+            nb = rng.choice([215, 230, 260])
+            L = 6000.0
+            burst = rng.choice([40, 60, 80])
+            ts = [k2 * (L * 0.9) / (nb - burst) + rng.uniform(0, 3) for k2 in range(nb - burst)] + [L - rng.uniform(0, 30) for _ in range(burst)]
+            spec = {"kind": "number", "data": [{"time": t, "width": rng.choice([8, 10, 12])} for t in ts],
+                    "options": {"direction": rng.choice(["up", "down"]), "domain": [0, L], "initialWidth": L + 40, "initialHeight": 300,
+                                "labella": {"algorithm": "none", "maxPos": L, "nodeSpacing": 3}, "showTicks": False},
+                    "opt_mode": "given"}
+            rep.count("long-single-layer-timeline")
+        elif k >= n:
             rep.count("dyadic-timeline")
         elif k % 4 == 3:
             # crowded variant: a bounded layer width that forces several layers, thick and lopsided label padding, small layer gaps —
